@@ -1,51 +1,220 @@
 package main
 
-func allOrder() map[string]bool {
-	return map[string]bool{"ORDER": true, "SLOT": true, "COMMITPOINT": true, "COMMIT-ERROR-PATH": true, "ROLLBACK-ON-EVERY-FAILURE": true,
-		"FINALIZE": true, "READER-IS-PASSIVE": true, "WHO-MAY-SWITCH": true}
+import "strings"
+
+// Which rules decide (clauses of) which property.  See DESIGN.md §3.
+
+func orderSet(names ...string) map[string]bool {
+	m := map[string]bool{}
+	for _, n := range names {
+		m[n] = true
+	}
+	return m
 }
+
+func g(rep *Report, rule string, f func()) { guard(rep, rule, f) }
 
 func init() {
 	register(&propertyDef{
-		id:      "T1",
-		explain: "scratch",
+		id: "C01",
+		explain: "Decides the commit/recovery PROTOCOL that crash atomicity rests on, on every path of the current source: " +
+			"(ORDER/SLOT/FINALIZE) data → sync → finalized header to the inactive slot → sync → Wait()==nil → in-memory switch, as a typestate over the interprocedural event trace of Tx.Commit (metaActive ∈ {0,1}) and Open; " +
+			"(WHO-MAY-SWITCH) headers/switches only below Commit and the init transactions; (SHADOW/SCHEDULE-SITES) a page write never targets a location the committed state references; " +
+			"(DEFERFREE) frees are journaled, never recycled inside the freeing transaction; (STICKY/RELEASE) the writer skips all I/O after the first error and always releases; " +
+			"(VALIDATE-COMPLETE/CHECKSUM-COVERAGE) a header is accepted only with magic, version and a checksum that covers every field. " +
+			"Not decided: which subset of unsynced writes survives a crash, torn header bytes, truncate arithmetic, that vfs.File.Sync makes data durable.",
 		run: func(p *Program, rep *Report, tier string) {
-			guard(rep, "DEFERFREE", func() { ruleDEFERFREE(p, rep) })
-			guard(rep, "ALLOC-RECORDED", func() { ruleALLOCRECORDED(p, rep) })
-			guard(rep, "INV-FL", func() { ruleINVFL(p, rep) })
-			guard(rep, "CAPACITY", func() { ruleCAPACITY(p, rep) })
-			guard(rep, "UNDO-JOURNAL", func() { ruleUNDOJOURNAL(p, rep) })
-			guard(rep, "STICKY", func() { ruleSTICKY(p, rep) })
-			guard(rep, "STABLE-BATCH", func() { ruleSTABLEBATCH(p, rep) })
-			guard(rep, "SHADOW", func() { ruleSHADOW(p, rep) })
-			guard(rep, "BUFFER-PRESERVE", func() { ruleBUFFERPRESERVE(p, rep) })
-			guard(rep, "WAL-RELEASE-ON-FREE", func() { ruleWALRELEASEONFREE(p, rep) })
-			guard(rep, "PAGE-BOUNDS", func() { rulePAGEBOUNDS(p, rep) })
-			guard(rep, "SETBYTES-BOUND", func() { ruleSETBYTESBOUND(p, rep) })
-			guard(rep, "LOCKSET", func() { ruleLOCKSET(p, rep) })
-			guard(rep, "ERRDISC", func() { ruleERRDISC(p, rep, "", false) })
-			guard(rep, "ERRDISC", func() { ruleERRDISC(p, rep, "pq", false) })
+			g(rep, "ORDER", func() { ruleORDER(p, rep, orderSet("ORDER", "SLOT", "FINALIZE", "WHO-MAY-SWITCH")) })
+			g(rep, "SHADOW", func() { ruleSHADOW(p, rep) })
+			g(rep, "DEFERFREE", func() { ruleDEFERFREE(p, rep) })
+			g(rep, "STICKY", func() { ruleSTICKY(p, rep) })
+			g(rep, "VALIDATE-COMPLETE", func() { ruleVALIDATECOMPLETE(p, rep) })
+			g(rep, "CHECKSUM-COVERAGE", func() { ruleCHECKSUMCOVERAGE(p, rep) })
 		},
 	})
 	register(&propertyDef{
-		id:      "C15",
-		explain: "LIFECYCLE",
+		id: "C02",
+		explain: "Decides the structural conditions of snapshot isolation: (LOCKSET) every write to the pointers that define what a transaction sees (File.metaActive/meta/mapped/size, waLog.mapping, allocator state, FileStats) and every access by a concurrent role hold a conflicting lock pair — evaluated per role (reader, writer, Close, background writer) by abstract interpretation with the lock state; " +
+			"(SNAPSHOT-AT-BEGIN) the per-transaction snapshot is taken under the transaction lock; (READER-IS-PASSIVE) no write/sync/switch/rollback is reachable from any method of a read-only transaction; " +
+			"(LOCKS preconditions) the exclusive wait happens only under Pending, Pending only under the writer lock; (SHADOW, DEFERFREE) the writer never changes bytes a reader can reach. " +
+			"Not decided: the condition-variable implementation in lock.go, poisoned views after remap, any actual interleaving.",
 		run: func(p *Program, rep *Report, tier string) {
-			guard(rep, "LIFECYCLE", func() { ruleLIFECYCLE(p, rep) })
+			g(rep, "LOCKSET", func() { ruleLOCKSET(p, rep) })
+			g(rep, "ORDER", func() { ruleORDER(p, rep, orderSet("READER-IS-PASSIVE")) })
+			g(rep, "LOCKS", func() {
+				ruleLOCKS(p, rep, func(r lockRoot) bool {
+					return r.name == "File.Close" || strings.HasPrefix(r.name, "Tx.Commit[tx(") || strings.HasPrefix(r.name, "File.Begin")
+				}, true)
+			})
+			g(rep, "SHADOW", func() { ruleSHADOW(p, rep) })
+			g(rep, "DEFERFREE", func() { ruleDEFERFREE(p, rep) })
 		},
 	})
 	register(&propertyDef{
-		id:      "C01",
-		explain: "ORDER etc.",
+		id: "C03",
+		explain: "Decides three structural necessary conditions of 'the store returns what was written' (the model equivalence itself is not statically decidable): " +
+			"(BUFFER-PRESERVE) the page write buffer is only replaced when nothing is lost; (STABLE-BATCH) queued writes to one page keep FIFO order (any sort over []writeMsg is stable); " +
+			"(WAL-RELEASE-ON-FREE) freeing a redirected page releases the overwrite page and its mapping on every success path. Not decided: partial-write arithmetic, checkpoint copy, mapping update.",
 		run: func(p *Program, rep *Report, tier string) {
-			guard(rep, "ORDER", func() { ruleORDER(p, rep, allOrder()) })
+			g(rep, "BUFFER-PRESERVE", func() { ruleBUFFERPRESERVE(p, rep) })
+			g(rep, "STABLE-BATCH", func() { ruleSTABLEBATCH(p, rep) })
+			g(rep, "WAL-RELEASE-ON-FREE", func() { ruleWALRELEASEONFREE(p, rep) })
 		},
 	})
 	register(&propertyDef{
-		id:      "C09",
-		explain: "LOCKS: lock pairing and API lock contracts on every exit of every exported root, decided by abstract interpretation of the SSA with a lock-state property automaton (see DESIGN.md C09).",
+		id: "C04",
+		explain: "Decides structural conditions of exclusive page ownership: (DEFERFREE) freed pages are only journaled; (ALLOC-RECORDED) every allocation primitive sits in a wrapper that records the pages in the transaction's journal; " +
+			"(INV-FL) every end-marker store preserves 'free regions lie below the end marker'; (PAGE-BOUNDS) Tx.getPage creates/looks up a page only under id ≥ 2, id < end marker, not freed; (WAL-RELEASE-ON-FREE). " +
+			"Not decided: arithmetic of region splitting/merging, meta-area growth sizes, exactness of the partition.",
 		run: func(p *Program, rep *Report, tier string) {
-			guard(rep, "LOCKS", func() { ruleLOCKS(p, rep, nil, true) })
+			g(rep, "DEFERFREE", func() { ruleDEFERFREE(p, rep) })
+			g(rep, "ALLOC-RECORDED", func() { ruleALLOCRECORDED(p, rep) })
+			g(rep, "INV-FL", func() { ruleINVFL(p, rep) })
+			g(rep, "PAGE-BOUNDS", func() { rulePAGEBOUNDS(p, rep) })
+			g(rep, "WAL-RELEASE-ON-FREE", func() { ruleWALRELEASEONFREE(p, rep) })
+		},
+	})
+	register(&propertyDef{
+		id: "C06",
+		explain: "Decides the transaction protocol of the queue: (PQTX) a flush and an ACK are each exactly one write transaction, file mutations only inside it, in-memory advance and callbacks only after Commit()==nil; " +
+			"(KEEPWRITEPAGE) the last page is never put on the ACK free plan; (TX-PAIRING) every transaction begun by pq is finished on every exit; (ERRDISC) no txfile error is dropped in pq; " +
+			"and on the txfile side the commit protocol (ORDER/SLOT). Not decided: that positions/links written are the right numbers, recovery of reader/writer state, crash subsets.",
+		run: func(p *Program, rep *Report, tier string) {
+			g(rep, "PQTX", func() { rulePQTX(p, rep) })
+			g(rep, "KEEPWRITEPAGE", func() { ruleKEEPWRITEPAGE(p, rep) })
+			g(rep, "TX-PAIRING", func() { ruleTXPAIRING(p, rep) })
+			g(rep, "ERRDISC", func() { ruleERRDISC(p, rep, "pq", false) })
+			g(rep, "ORDER", func() { ruleORDER(p, rep, orderSet("ORDER", "SLOT")) })
+		},
+	})
+	register(&propertyDef{
+		id: "C07",
+		explain: "Decides structural conditions of 'an aborted transaction leaves no trace': (ROLLBACK-ON-EVERY-FAILURE) every Commit failing before the commit point and every Rollback/Close of a write transaction runs the allocator rollback exactly once, a successful Commit never; " +
+			"(COMMITPOINT) no rollback and no error return after the in-memory switch; (UNDO-JOURNAL) every pre-commit mutation of allocator state has a journal entry that Rollback reads; (INV-FL) the rollback's end-marker store trims the freelist. " +
+			"Not decided: that the undo is numerically exact, truncate sizing.",
+		run: func(p *Program, rep *Report, tier string) {
+			g(rep, "ORDER", func() { ruleORDER(p, rep, orderSet("ROLLBACK-ON-EVERY-FAILURE", "COMMITPOINT")) })
+			g(rep, "UNDO-JOURNAL", func() { ruleUNDOJOURNAL(p, rep) })
+			g(rep, "INV-FL", func() { ruleINVFL(p, rep) })
+		},
+	})
+	register(&propertyDef{
+		id: "C08",
+		explain: "Decides the error discipline around I/O: (ERRDISC) no error returned by a repository function or a vfs.File/Delegate method is dropped (21 allow-listed call edges, one reason each); " +
+			"(COMMIT-ERROR-PATH) every exit of Commit/Open has waited for the writer and a failed Wait is followed by an error-resetting sync; (COMMITPOINT) no error return after the switch; " +
+			"(LIFECYCLE) building the error of a failed or repeated operation never dereferences state cleared by close(); (STICKY/RELEASE) no I/O after the first failure, no lost Release (the only way Wait can hang). " +
+			"Not decided: 'keeps seeing the last committed state' and 'commits succeed again' as behaviours; short-write arithmetic.",
+		run: func(p *Program, rep *Report, tier string) {
+			g(rep, "ERRDISC", func() { ruleERRDISC(p, rep, "", false) })
+			g(rep, "ERRDISC", func() { ruleERRDISC(p, rep, "pq", true) })
+			g(rep, "ORDER", func() { ruleORDER(p, rep, orderSet("COMMIT-ERROR-PATH", "COMMITPOINT")) })
+			g(rep, "LIFECYCLE", func() { ruleLIFECYCLE(p, rep, "tx-finished") })
+			g(rep, "STICKY", func() { ruleSTICKY(p, rep) })
+		},
+	})
+	register(&propertyDef{
+		id: "C09",
+		explain: "Decides lock pairing, lock order and guarded-by: (LOCKS) on every path of every exported root (Open, File.Close, Begin*, every Tx and Page method per role and lifecycle scenario, the background writer) each lock acquired is released and the per-exit API contract holds, split by error nil-ness; " +
+			"(LOCK-ORDER) acquisition edges are consistent with Reserved < Pending < Exclusive < internal mutexes, Exclusive only under Pending, Pending only under the writer lock; (LOCKSET) role-sensitive guarded-by analysis for data races; (RELEASE) the WaitGroup hand-off of the writer error. " +
+			"Not decided: condition-variable progress, fairness, user-level self-deadlock.",
+		run: func(p *Program, rep *Report, tier string) {
+			g(rep, "LOCKS", func() { ruleLOCKS(p, rep, nil, true) })
+			g(rep, "LOCKSET", func() { ruleLOCKSET(p, rep) })
+			g(rep, "STICKY", func() { ruleSTICKY(p, rep) })
+		},
+	})
+	register(&propertyDef{
+		id: "C10",
+		explain: "Decides the agreement clauses of close/reopen: (PERSIST-AGREE) every persisted header field written on a commit/flush/ACK path (file header, queue header, event page header) is read back on the open/read path; " +
+			"(RELOAD-AGREE) every in-memory field assigned by the commit-time switch is also assigned by the open-time loaders. Not decided: encode/decode round trip, page-count prediction, 7-byte ids.",
+		run: func(p *Program, rep *Report, tier string) {
+			g(rep, "PERSIST-AGREE", func() { rulePERSISTAGREE(p, rep) })
+			g(rep, "RELOAD-AGREE", func() { ruleRELOADAGREE(p, rep) })
+		},
+	})
+	register(&propertyDef{
+		id: "C11",
+		explain: "Decides the size-limit clause: (CAPACITY) every end-marker advance is dominated by a capacity test derived from maxPages/Avail() or by the overflow flag; (OVERFLOW-GATE) that flag is only ever the transaction's EnableOverflowArea option or false; " +
+			"plus (UNDO-JOURNAL, INV-FL) no page vanishes on rollback. Not decided: the conservation equation, FileStats arithmetic, truncation.",
+		run: func(p *Program, rep *Report, tier string) {
+			g(rep, "CAPACITY", func() { ruleCAPACITY(p, rep) })
+			g(rep, "UNDO-JOURNAL", func() { ruleUNDOJOURNAL(p, rep) })
+			g(rep, "INV-FL", func() { ruleINVFL(p, rep) })
+		},
+	})
+	register(&propertyDef{
+		id: "C12",
+		explain: "Decides structural conditions of space reclamation and 'full without loss': (KEEPWRITEPAGE, FREE-ALL-CONSUMED) the ACK frees exactly its plan inside the cleanup transaction and never the write page; " +
+			"(FAILED-FLUSH-UNASSIGNS) a failed flush un-assigns page ids and keeps the buffer; (CLEANUP-MAY-OVERFLOW) the cleanup transaction may use the overflow area, the writer's may not; (ERRDISC) flush errors reach the caller. Not decided: the space bound, order after retry.",
+		run: func(p *Program, rep *Report, tier string) {
+			g(rep, "KEEPWRITEPAGE", func() { ruleKEEPWRITEPAGE(p, rep) })
+			g(rep, "FREE-ALL-CONSUMED", func() { ruleFREEALLCONSUMED(p, rep) })
+			g(rep, "PQTX", func() { rulePQTX(p, rep) })
+			g(rep, "CLEANUP-MAY-OVERFLOW", func() { ruleCLEANUPMAYOVERFLOW(p, rep) })
+			g(rep, "ERRDISC", func() { ruleERRDISC(p, rep, "pq", false) })
+		},
+	})
+	register(&propertyDef{
+		id: "C13",
+		explain: "Decides structural conditions of concurrent producer/consumer: (TX-PAIRING) no queue function leaks a transaction (= a file lock the other role waits for); (KEEPWRITEPAGE) the page the writer appends to is never in an ACK plan; " +
+			"(CONFINEMENT) writer, reader and ACK roles share no mutable memory; and the file-level lock rules underneath (LOCKS for Begin/Commit/Close). Not decided: FIFO equality, validity of an ACK plan across its two transactions in general.",
+		run: func(p *Program, rep *Report, tier string) {
+			g(rep, "TX-PAIRING", func() { ruleTXPAIRING(p, rep) })
+			g(rep, "KEEPWRITEPAGE", func() { ruleKEEPWRITEPAGE(p, rep) })
+			g(rep, "CONFINEMENT", func() { ruleCONFINEMENT(p, rep) })
+			g(rep, "LOCKS", func() {
+				ruleLOCKS(p, rep, func(r lockRoot) bool {
+					return strings.HasPrefix(r.name, "File.Begin") || strings.HasPrefix(r.name, "Tx.Commit[tx(") || strings.HasPrefix(r.name, "Tx.Close[tx(")
+				}, false)
+			})
+		},
+	})
+	register(&propertyDef{
+		id: "C14",
+		explain: "Decides the protocol of the open-time max-size update: (LOCKS at root Open) every in-process lock is idle at every exit, the background writer and the mapping are released on every error exit (a failed resize closes the File); " +
+			"(ORDER/SLOT/FINALIZE at root Open) the init transactions write a finalized header to the inactive slot, sync and wait before File.metaActive / allocator limits are switched; (ERRDISC) the only dropped result is the documented may-fail release transaction. Not decided: which pages become allocatable, extent arithmetic.",
+		run: func(p *Program, rep *Report, tier string) {
+			g(rep, "LOCKS", func() { ruleLOCKS(p, rep, func(r lockRoot) bool { return r.name == "Open" || strings.HasPrefix(r.name, "File.Begin") }, true) })
+			g(rep, "ORDER", func() { ruleORDER(p, rep, orderSet("ORDER", "SLOT", "FINALIZE", "COMMIT-ERROR-PATH")) })
+			g(rep, "ERRDISC", func() { ruleERRDISC(p, rep, "", false) })
+		},
+	})
+	register(&propertyDef{
+		id: "C15",
+		explain: "Decides the method × lifecycle-state matrix abstractly: for every exported method of Tx, Page, Writer, Reader, Queue and every scenario that makes the call invalid (transaction finished, read-only, page freed/flushed/dirty/new-without-buffer, writer/reader/queue closed, reader without transaction) — " +
+			"no definite nil dereference, every return carries a non-nil error, no lock/writer/shared-state effect; plus (PAGE-BOUNDS) out-of-range and freed pages are rejected before any page object is created, (SETBYTES-BOUND) oversize contents are rejected before the buffer is touched. Not decided: ACK-too-many arithmetic, error kinds through wrapping.",
+		run: func(p *Program, rep *Report, tier string) {
+			g(rep, "LIFECYCLE", func() { ruleLIFECYCLE(p, rep, "") })
+			g(rep, "PAGE-BOUNDS", func() { rulePAGEBOUNDS(p, rep) })
+			g(rep, "SETBYTES-BOUND", func() { ruleSETBYTESBOUND(p, rep) })
+		},
+	})
+	register(&propertyDef{
+		id: "C16",
+		explain: "Decides the header-selection protocol: (VALIDATE) in readValidMeta no field of a header read from disk is used before its Validate() returned nil and the header returned is a validated one (typestate by abstract interpretation, validity follows struct copies); " +
+			"(VALIDATE-COMPLETE) Validate returns nil only after magic, version and checksum equality; (CHECKSUM-COVERAGE) the checksum is the last field of a packed struct and the hashed array covers all bytes before it (go/types layout); (NO-PANIC-ON-INPUT) no explicit panic below readValidMeta; (FINALIZE) headers are finalized before they are written. Not decided: strength of FNV-32a, torn pages.",
+		run: func(p *Program, rep *Report, tier string) {
+			g(rep, "VALIDATE", func() { ruleVALIDATE(p, rep) })
+			g(rep, "VALIDATE-COMPLETE", func() { ruleVALIDATECOMPLETE(p, rep) })
+			g(rep, "CHECKSUM-COVERAGE", func() { ruleCHECKSUMCOVERAGE(p, rep) })
+			g(rep, "NO-PANIC-ON-INPUT", func() { ruleNOPANICONINPUT(p, rep) })
+			g(rep, "ORDER", func() { ruleORDER(p, rep, orderSet("FINALIZE")) })
+		},
+	})
+	register(&propertyDef{
+		id: "C17",
+		explain: "Decides the callback clause only: (PQTX) Settings.Flushed / Settings.ACKed and the counters behind them are only touched after Commit()==nil of the one flush/ACK transaction; (CALLBACK-ARG) the callback's argument is the event count taken before the transaction, not the counter after its reset. Pending/Active/Available arithmetic is not decided.",
+		run: func(p *Program, rep *Report, tier string) {
+			g(rep, "PQTX", func() { rulePQTX(p, rep) })
+			g(rep, "CALLBACK-ARG", func() { ruleCALLBACKARG(p, rep) })
+		},
+	})
+	register(&propertyDef{
+		id: "C18",
+		explain: "Decides the path-lock protocol (LOCKS with the flock class at roots Open and File.Close): after vfs Lock succeeded every error exit of Open has released it (flag-guarded defers interpreted exactly), the lock-failed exit never held it, the success exit holds it; every exit of File.Close releases it; lock order flock < in-process locks. Not decided: flock(2) itself.",
+		run: func(p *Program, rep *Report, tier string) {
+			g(rep, "LOCKS", func() { ruleLOCKS(p, rep, func(r lockRoot) bool { return r.name == "Open" || r.name == "File.Close" }, false) })
+			g(rep, "FLOCK-OWNER", func() { ruleFLOCKOWNER(p, rep) })
 		},
 	})
 }
